@@ -6,6 +6,7 @@ package sqlite
 
 import (
 	"fmt"
+	"math/big"
 	"reflect"
 	"strconv"
 	"strings"
@@ -145,6 +146,13 @@ func (d *diff) defaultChanged(from, to *schema.Column) bool {
 	// representation of an inspected "DEFAULT TRUE" is the boolean true.
 	if isKeywordBool(d1) && isKeywordBool(d2) && strings.EqualFold(d1, d2) {
 		return false
+	}
+	// Numbers are compared by value: "1.50", "+5" and "1e3" are stored by SQLite as typed
+	// and are written as 1.5, 5 and 1000 by the HCL representation of the inspected schema.
+	if n1, ok1 := new(big.Rat).SetString(d1); ok1 && sqlx.IsLiteralNumber(d1) && sqlx.IsLiteralNumber(d2) {
+		if n2, ok2 := new(big.Rat).SetString(d2); ok2 {
+			return n1.Cmp(n2) != 0
+		}
 	}
 	x1, err1 := sqlx.Unquote(d1)
 	x2, err2 := sqlx.Unquote(d2)
